@@ -4,58 +4,224 @@ C03 — the reference constructions used as oracles have exactly the set-theoret
 import Pfl.Oracle.RegOps
 import Pfl.Props.C01_Det
 import Pfl.Props.C03_Bool
+import Pfl.Proofs.FARef
 namespace Pfl
 namespace ENFA
+set_option linter.unusedSectionVars false
 variable {σ τ : Type} [DecidableEq σ] [DecidableEq τ]
 
 theorem unionA_lang (A : ENFA σ) (B : ENFA τ) (w : List Nat) :
     (A.unionA B).Lang w ↔ A.Lang w ∨ B.Lang w := by
-  sorry
+  unfold Lang
+  simp only [unionA, List.mem_append, List.mem_map]
+  constructor
+  · rintro ⟨s, (⟨s0, hs0, rfl⟩ | ⟨s0, hs0, rfl⟩), f, hf, hr⟩
+    · obtain ⟨r, rfl, hr'⟩ :=
+        (run_embed_iff (A := A) (K := A.unionA B) Sum.inl (mem_unionA_delta_inl A B) s0 w f).mp hr
+      rcases hf with ⟨f0, hf0, h⟩ | ⟨f0, hf0, h⟩
+      · cases h; exact Or.inl ⟨s0, hs0, r, hf0, hr'⟩
+      · cases h
+    · obtain ⟨r, rfl, hr'⟩ :=
+        (run_embed_iff (A := B) (K := A.unionA B) Sum.inr (mem_unionA_delta_inr A B) s0 w f).mp hr
+      rcases hf with ⟨f0, hf0, h⟩ | ⟨f0, hf0, h⟩
+      · cases h
+      · cases h; exact Or.inr ⟨s0, hs0, r, hf0, hr'⟩
+  · rintro (⟨s, hs, f, hf, hr⟩ | ⟨s, hs, f, hf, hr⟩)
+    · exact ⟨Sum.inl s, Or.inl ⟨s, hs, rfl⟩, Sum.inl f, Or.inl ⟨f, hf, rfl⟩,
+        (run_embed_iff (A := A) (K := A.unionA B) Sum.inl (mem_unionA_delta_inl A B) s w _).mpr
+          ⟨f, rfl, hr⟩⟩
+    · exact ⟨Sum.inr s, Or.inr ⟨s, hs, rfl⟩, Sum.inr f, Or.inr ⟨f, hf, rfl⟩,
+        (run_embed_iff (A := B) (K := A.unionA B) Sum.inr (mem_unionA_delta_inr A B) s w _).mpr
+          ⟨f, rfl, hr⟩⟩
 
 theorem concatA_lang (A : ENFA σ) (B : ENFA τ) (w : List Nat) :
     (A.concatA B).Lang w ↔ ∃ u v, w = u ++ v ∧ A.Lang u ∧ B.Lang v := by
-  sorry
+  unfold Lang
+  constructor
+  · rintro ⟨s, hs, f, hf, hr⟩
+    obtain ⟨s0, hs0, rfl⟩ : ∃ s0 ∈ A.starts, Sum.inl s0 = s := by
+      simpa [concatA] using hs
+    obtain ⟨f0, hf0, rfl⟩ : ∃ f0 ∈ B.finals, Sum.inr f0 = f := by
+      simpa [concatA] using hf
+    obtain ⟨u, v, fa, sb, hw, hu, hfa, hsb, hv⟩ := concatA_run_split A B hr s0 f0 rfl rfl
+    exact ⟨u, v, hw, ⟨s0, hs0, fa, hfa, hu⟩, ⟨sb, hsb, f0, hf0, hv⟩⟩
+  · rintro ⟨u, v, rfl, ⟨s0, hs0, fa, hfa, hu⟩, ⟨sb, hsb, f0, hf0, hv⟩⟩
+    refine ⟨Sum.inl s0, by simp [concatA, hs0], Sum.inr f0, by simp [concatA, hf0], ?_⟩
+    have h1 : (A.concatA B).Run (Sum.inl s0) u (Sum.inl fa) :=
+      Run.embed (K := A.concatA B) Sum.inl
+        (fun q a r he => (mem_concatA_delta_inl A B q a _).mpr (Or.inl ⟨r, rfl, he⟩)) hu
+    have h2 : (A.concatA B).Run (Sum.inr sb) v (Sum.inr f0) :=
+      Run.embed (K := A.concatA B) Sum.inr
+        (fun q a r he => (mem_concatA_delta_inr A B q a _).mpr ⟨r, rfl, he⟩) hv
+    exact Run.append h1 (Run.eps
+      ((mem_concatA_delta_inl A B fa none _).mpr (Or.inr ⟨sb, rfl, rfl, hfa, hsb⟩)) h2)
 
 theorem starA_lang (A : ENFA σ) (w : List Nat) :
     A.starA.Lang w ↔ ∃ ws : List (List Nat), w = ws.flatten ∧ ∀ x ∈ ws, A.Lang x := by
-  sorry
+  constructor
+  · rintro ⟨s, hs, f, hf, hr⟩
+    have hs' : s = none := by simpa [starA] using hs
+    have hf' : f = none := by simpa [starA] using hf
+    subst hs'
+    exact starA_run_decomp A hr hf'
+  · rintro ⟨ws, rfl, hws⟩
+    exact ⟨none, by simp [starA], none, by simp [starA], starA_run_of_words A ws hws⟩
 
 theorem unionA_wf (A : ENFA σ) (B : ENFA τ) (hA : A.WF) (hB : B.WF) : (A.unionA B).WF := by
-  sorry
+  refine ⟨?_, ?_, ?_, ?_, ?_⟩
+  · intro q hq
+    simp only [unionA, List.mem_append, List.mem_map] at hq ⊢
+    rcases hq with ⟨s, hs, rfl⟩ | ⟨s, hs, rfl⟩
+    · exact Or.inl ⟨s, hA.starts_sub s hs, rfl⟩
+    · exact Or.inr ⟨s, hB.starts_sub s hs, rfl⟩
+  · intro q hq
+    simp only [unionA, List.mem_append, List.mem_map] at hq ⊢
+    rcases hq with ⟨s, hs, rfl⟩ | ⟨s, hs, rfl⟩
+    · exact Or.inl ⟨s, hA.finals_sub s hs, rfl⟩
+    · exact Or.inr ⟨s, hB.finals_sub s hs, rfl⟩
+  · intro t ht
+    simp only [unionA, List.mem_append, List.mem_map] at ht ⊢
+    rcases ht with ⟨s, hs, rfl⟩ | ⟨s, hs, rfl⟩
+    · exact Or.inl ⟨_, hA.delta_src s hs, rfl⟩
+    · exact Or.inr ⟨_, hB.delta_src s hs, rfl⟩
+  · intro t ht
+    simp only [unionA, List.mem_append, List.mem_map] at ht ⊢
+    rcases ht with ⟨s, hs, rfl⟩ | ⟨s, hs, rfl⟩
+    · exact Or.inl ⟨_, hA.delta_dst s hs, rfl⟩
+    · exact Or.inr ⟨_, hB.delta_dst s hs, rfl⟩
+  · intro t ht a ha
+    simp only [unionA, List.mem_append, List.mem_map, List.mem_eraseDups] at ht ⊢
+    rcases ht with ⟨s, hs, rfl⟩ | ⟨s, hs, rfl⟩
+    · exact Or.inl (hA.delta_sym s hs a ha)
+    · exact Or.inr (hB.delta_sym s hs a ha)
 
 theorem concatA_wf (A : ENFA σ) (B : ENFA τ) (hA : A.WF) (hB : B.WF) : (A.concatA B).WF := by
-  sorry
+  refine ⟨?_, ?_, ?_, ?_, ?_⟩
+  · intro q hq
+    simp only [concatA, List.mem_append, List.mem_map] at hq ⊢
+    obtain ⟨s, hs, rfl⟩ := hq
+    exact Or.inl ⟨s, hA.starts_sub s hs, rfl⟩
+  · intro q hq
+    simp only [concatA, List.mem_append, List.mem_map] at hq ⊢
+    obtain ⟨s, hs, rfl⟩ := hq
+    exact Or.inr ⟨s, hB.finals_sub s hs, rfl⟩
+  · intro t ht
+    simp only [concatA, List.mem_append, List.mem_map, List.mem_flatMap] at ht ⊢
+    rcases ht with (⟨s, hs, rfl⟩ | ⟨s, hs, rfl⟩) | ⟨f, hf, s, hs, rfl⟩
+    · exact Or.inl ⟨_, hA.delta_src s hs, rfl⟩
+    · exact Or.inr ⟨_, hB.delta_src s hs, rfl⟩
+    · exact Or.inl ⟨f, hA.finals_sub f hf, rfl⟩
+  · intro t ht
+    simp only [concatA, List.mem_append, List.mem_map, List.mem_flatMap] at ht ⊢
+    rcases ht with (⟨s, hs, rfl⟩ | ⟨s, hs, rfl⟩) | ⟨f, hf, s, hs, rfl⟩
+    · exact Or.inl ⟨_, hA.delta_dst s hs, rfl⟩
+    · exact Or.inr ⟨_, hB.delta_dst s hs, rfl⟩
+    · exact Or.inr ⟨s, hB.starts_sub s hs, rfl⟩
+  · intro t ht a ha
+    simp only [concatA, List.mem_append, List.mem_map, List.mem_flatMap, List.mem_eraseDups] at ht ⊢
+    rcases ht with (⟨s, hs, rfl⟩ | ⟨s, hs, rfl⟩) | ⟨f, hf, s, hs, rfl⟩
+    · exact Or.inl (hA.delta_sym s hs a ha)
+    · exact Or.inr (hB.delta_sym s hs a ha)
+    · cases ha
 
 theorem starA_wf (A : ENFA σ) (hA : A.WF) : A.starA.WF := by
-  sorry
+  refine ⟨?_, ?_, ?_, ?_, ?_⟩
+  · intro q hq
+    simp only [starA, List.mem_singleton] at hq
+    subst hq
+    exact List.mem_cons_self
+  · intro q hq
+    simp only [starA, List.mem_singleton] at hq
+    subst hq
+    exact List.mem_cons_self
+  · intro t ht
+    simp only [starA, List.mem_append, List.mem_map, List.mem_cons] at ht ⊢
+    rcases ht with (⟨s, hs, rfl⟩ | ⟨s, hs, rfl⟩) | ⟨f, hf, rfl⟩
+    · exact Or.inr ⟨_, hA.delta_src s hs, rfl⟩
+    · exact Or.inl rfl
+    · exact Or.inr ⟨f, hA.finals_sub f hf, rfl⟩
+  · intro t ht
+    simp only [starA, List.mem_append, List.mem_map, List.mem_cons] at ht ⊢
+    rcases ht with (⟨s, hs, rfl⟩ | ⟨s, hs, rfl⟩) | ⟨f, hf, rfl⟩
+    · exact Or.inr ⟨_, hA.delta_dst s hs, rfl⟩
+    · exact Or.inr ⟨s, hA.starts_sub s hs, rfl⟩
+    · exact Or.inl rfl
+  · intro t ht a ha
+    simp only [starA, List.mem_append, List.mem_map] at ht ⊢
+    rcases ht with (⟨s, hs, rfl⟩ | ⟨s, hs, rfl⟩) | ⟨f, hf, rfl⟩
+    · exact hA.delta_sym s hs a ha
+    · cases ha
+    · cases ha
 
 /-- `canonS` separates different subsets of the states -/
 theorem canonS_keyInj (A : ENFA σ) : A.KeyInj A.canonS := by
-  sorry
+  exact canonS_keyInj' A
 
 theorem complementRef_lang (A : ENFA σ) (hA : A.WF) (trash : List σ)
     (ht : ∃ q ∈ trash, q ∉ A.states) (fuel : Nat) (C : ENFA (List σ))
     (h : A.complementRef trash fuel = some C) (w : List Nat) :
     C.Lang w ↔ (∀ a ∈ w, a ∈ A.syms) ∧ ¬ A.Lang w := by
-  sorry
+  unfold complementRef at h
+  obtain ⟨D, hD, rfl⟩ := Option.map_eq_some_iff.mp h
+  obtain ⟨seen, hseen, hDeq⟩ := toDet_eq A A.canonS true fuel D hD
+  have hshape := toDet_shape A A.canonS true fuel D hD
+  have hDwf : D.WF := by rw [hDeq]; exact ofParts_wf _ _ _
+  have hD'wf : (D.addSyms A.syms).WF := addSyms_wf' D hDwf A.syms
+  have hD'det : (D.addSyms A.syms).Deterministic := hshape.1
+  have hstarts : (D.addSyms A.syms).starts ≠ [] := by
+    intro h0
+    have hm : A.canonS (A.detStart true) ∈ D.starts := by
+      rw [hDeq]; exact (mem_detOf_starts A A.canonS true seen _).mpr rfl
+    have h0' : D.starts = [] := h0
+    rw [h0'] at hm
+    cases hm
+  have htrash : trash ∉ (D.addSyms A.syms).states := by
+    intro hmem
+    have hmem' : trash ∈ (A.detOf A.canonS true seen).states := by rw [← hDeq]; exact hmem
+    obtain ⟨S, hS⟩ := detOf_states_canon A true seen trash hmem'
+    obtain ⟨q, hq, hqn⟩ := ht
+    rw [hS] at hq
+    exact hqn ((mem_canonS A S q).mp hq).1
+  have hlang : (D.addSyms A.syms).Lang w ↔ A.Lang w := by
+    rw [← toDet_lang A hA A.canonS (canonS_keyInj' A) fuel D hD w]
+    exact lang_congr (A := D.addSyms A.syms) (B := D) (fun _ => Iff.rfl) (fun _ => Iff.rfl)
+      (fun _ => Iff.rfl) w
+  have hsyms : ∀ a, a ∈ (D.addSyms A.syms).syms ↔ a ∈ A.syms := by
+    intro a
+    simp only [addSyms, List.mem_eraseDups, List.mem_append]
+    constructor
+    · rintro (h1 | h1)
+      · rw [hDeq] at h1; exact detOf_syms_sub A A.canonS true seen a h1
+      · exact h1
+    · intro h1; exact Or.inr h1
+  rw [complementRaw_lang (D.addSyms A.syms) hD'wf hD'det hstarts trash htrash w, hlang]
+  simp only [hsyms]
 
 theorem complementRef_wf (A : ENFA σ) (hA : A.WF) (trash : List σ) (fuel : Nat)
     (C : ENFA (List σ)) (h : A.complementRef trash fuel = some C) : C.WF := by
-  sorry
+  have _ := hA
+  unfold complementRef at h
+  obtain ⟨D, _, rfl⟩ := Option.map_eq_some_iff.mp h
+  exact complementRaw_wf _ _ (ofParts_wf _ _ _) trash
 
 theorem inter_wf (A : ENFA σ) (B : ENFA τ) (hA : A.WF) (hB : B.WF) (fuel : Nat)
     (P : ENFA (σ × τ)) (h : A.inter B fuel = some P) : P.WF := by
-  sorry
+  have _ := hA; have _ := hB
+  unfold inter at h
+  obtain ⟨seen, _, rfl⟩ := Option.map_eq_some_iff.mp h
+  exact ofParts_wf _ _ _
 
 theorem reverse_wf (A : ENFA σ) (hA : A.WF) : A.reverse.WF := by
-  sorry
+  have _ := hA
+  exact ofParts_wf _ _ _
 
 theorem addSyms_lang (A : ENFA σ) (syms : List Nat) (w : List Nat) :
     (A.addSyms syms).Lang w ↔ A.Lang w := by
-  sorry
+  exact lang_congr (A := A.addSyms syms) (B := A) (fun _ => Iff.rfl) (fun _ => Iff.rfl)
+    (fun _ => Iff.rfl) w
 
 theorem addSyms_wf (A : ENFA σ) (hA : A.WF) (syms : List Nat) : (A.addSyms syms).WF := by
-  sorry
+  exact addSyms_wf' A hA syms
 
 end ENFA
 end Pfl
